@@ -120,6 +120,113 @@ theorem firstBad_none_iff (dest : Path) (old : Option Content) (new : Content) (
       intro j
       simpa [List.take_succ_cons, run_cons] using h (j + 1)
 
+/-! ## The same for a set of allowed contents; arbitrary interleavings -/
+
+theorem crashOKP_iff (ok : Option Content → Bool) (s : FS) (dest : Path) :
+    crashOKP ok s dest = true ↔ ∀ c, AfterCrash s dest c → ok c = true := by
+  unfold crashOKP
+  cases hn : s.names dest with
+  | none =>
+    constructor
+    · intro h c hc
+      cases c with
+      | none => exact h
+      | some x => obtain ⟨i, hi, _⟩ := hc; simp [hn] at hi
+    · intro h; exact h none hn
+  | some i =>
+    simp only
+    cases hd : s.dirty i with
+    | true =>
+      simp only [if_true, Bool.and_eq_true, prefixesAll_iff, List.nil_append]
+      constructor
+      · rintro ⟨h0, h1⟩ c hc
+        cases c with
+        | none => simp [AfterCrash, hn] at hc
+        | some x =>
+          obtain ⟨j, hj, hs⟩ := hc
+          rw [hn] at hj; cases hj
+          simp only [Survives, hd, if_true] at hs
+          rcases hs with rfl | hp
+          · exact h0
+          · exact h1 x hp
+      · intro h
+        refine ⟨h (some (s.disk i)) ⟨i, hn, by simp [Survives, hd]⟩, ?_⟩
+        intro q hq
+        exact h (some q) ⟨i, hn, by simp [Survives, hd, hq]⟩
+    | false =>
+      simp only [Bool.false_eq_true, if_false]
+      constructor
+      · intro h c hc
+        cases c with
+        | none => simp [AfterCrash, hn] at hc
+        | some x =>
+          obtain ⟨j, hj, hs⟩ := hc
+          rw [hn] at hj; cases hj
+          simp only [Survives, hd, Bool.false_eq_true, if_false] at hs
+          subst hs; exact h
+      · intro h
+        exact h (some (s.cache i)) ⟨i, hn, by simp [Survives, hd]⟩
+
+theorem firstBadP_none_iff (ok : Option Content → Bool) (dest : Path) (s : FS) (es : List Sys) :
+    firstBadP ok dest s es = none ↔ ∀ j, OKAtP ok (run s (es.take j)) dest := by
+  have inst : ∀ s : FS, (visibleOKP ok s dest = true ∧ crashOKP ok s dest = true) ↔ OKAtP ok s dest := by
+    intro s; rw [crashOKP_iff]; rfl
+  induction es generalizing s with
+  | nil =>
+    unfold firstBadP
+    simp only [List.take_nil, run, List.foldl_nil, ← inst]
+    cases visibleOKP ok s dest <;> cases crashOKP ok s dest <;> simp
+  | cons e es ih =>
+    unfold firstBadP
+    constructor
+    · intro h j
+      cases hv : visibleOKP ok s dest with
+      | false => simp [hv] at h
+      | true =>
+        cases hc : crashOKP ok s dest with
+        | false => simp [hv, hc] at h
+        | true =>
+          simp only [hv, hc, Bool.not_true, Bool.false_eq_true, if_false] at h
+          cases j with
+          | zero => exact (inst s).mp ⟨hv, hc⟩
+          | succ j => simpa [List.take_succ_cons, run_cons] using (ih (exec s e)).mp h j
+    · intro h
+      have h0 := (inst s).mpr (by simpa [run] using h 0)
+      simp only [h0.1, h0.2, Bool.not_true, Bool.false_eq_true, if_false]
+      apply (ih (exec s e)).mpr
+      intro j
+      simpa [List.take_succ_cons, run_cons] using h (j + 1)
+
+/-- Any interleaving of anything whose steps are all good keeps `dest` settled at
+the version it had or at one of the complete versions `V`, at every instant. -/
+theorem goodTrace_settled (dest : Path) (V : List Content) (es : List Sys) :
+    ∀ (s : FS) (v : Option Content), WF s → Settled s dest v → GoodTrace dest V s es →
+      ∀ j, ∃ w, (w = v ∨ ∃ c ∈ V, w = some c) ∧ Settled (run s (es.take j)) dest w := by
+  induction es with
+  | nil => intro s v _ h _ j; exact ⟨v, Or.inl rfl, by simpa [run] using h⟩
+  | cons e es ih =>
+    intro s v hwf h hg j
+    cases j with
+    | zero => exact ⟨v, Or.inl rfl, by simpa [run] using h⟩
+    | succ j =>
+      simp only [List.take_succ_cons, run_cons]
+      obtain ⟨hstep, hrest⟩ := hg
+      unfold exec at hrest ⊢
+      cases hs : step s e with
+      | error er =>
+        simp only [hs] at hrest ⊢
+        exact ih s v hwf h hrest j
+      | ok s' =>
+        simp only [hs] at hrest ⊢
+        have hwf' := step_wf hwf hs
+        rcases hstep with hsafe | ⟨tmp, c, rfl, hne, hready, hc⟩
+        · exact ih s' v hwf' (step_safe hwf h hsafe hs) hrest j
+        · obtain ⟨w, hw, hset⟩ := ih s' (some c) hwf' (rename_settles hready hne hs) hrest j
+          refine ⟨w, ?_, hset⟩
+          rcases hw with rfl | hw
+          · exact Or.inr ⟨c, hc, rfl⟩
+          · exact Or.inr hw
+
 /-! ## Replay of what a program performed -/
 
 /-- The syscalls of a program that were actually performed (up to the first error). -/
